@@ -1,9 +1,11 @@
 #!/bin/bash
-# regenerate every evidence file on the current tree (quick tier by default): ./run_all.sh [quick|thorough]
+# regenerate every evidence file on the current tree (quick tier by default): ./run_all.sh [quick|thorough] [PID ...]
 cd "$(dirname "$0")"
 T=${1:-quick}
+shift || true
 rc=0
-for p in $(python3 -c "import json; print(' '.join(c['property_id'] for c in json.load(open('MANIFEST.json'))['checks']))"); do
+PIDS=${@:-$(python3 -c "import json; print(' '.join(c['property_id'] for c in json.load(open('MANIFEST.json'))['checks']))")}
+for p in $PIDS; do
   ./vcheck $p --tier $T 2>&1 | grep -v "^WARNING conda" | tail -3 | cut -c1-220
   r=${PIPESTATUS[0]}; [ $r -ne 0 ] && { echo "  -> exit $r for $p"; rc=1; }
 done
